@@ -3,9 +3,12 @@
           | L [A 4; A a] GSuspend | L [A 5; A a] GResume | L [A 6; A a; t] GYield (t = L [] | L [A ticks])
           | L [A 7; A a] GReturn | L [A 8; A a] GRaise | L [A 9; A a] PopWake | L [A 10; A a] Timeout
           | L [A 11; A a; A restart] GCancel
-   output = L [L obs; L summary]   obs = L [A 0; A a; B d] | L [A 1; A a] | L [A 2; A a; B d] | L [A 3; A a] | L [A 9]
+   output = L [L obs; L summary; L stuck]   obs = L [A 0; A a; B d] | L [A 1; A a] | L [A 2; A a; B d] | L [A 3; A a] | L [A 9]
             (a label that is not enabled ends the run with obs L [A (-1); A index])
-            summary: per address L [A gens; A active; L (B d) received]                                            *)
+            summary: per address L [A gens; A active; L (B d) received]
+            stuck: the internal steps still enabled in the final state (the real server is idle when the script ends, so
+                   this must be empty): L [A 1] a handler task has not run | L [A 2; A a] suspended handler | L [A 3; A a]
+                   pending restart task | L [A 9; A a] coroutine waiting in pop_datagram although its queue is not empty *)
 From EN Require Import Lib.Bytes Lib.Sx Conc.DgramServer.
 
 Definition dec_label (x : sx) : option label :=
@@ -48,6 +51,20 @@ Definition summary (s : state) (naddr : nat) : list sx :=
   map (fun a => let c := cl s a in
                 L [of_nat (gens c); of_nat (active_now c); L (map B (delivered c))]) (seq 0 naddr).
 
+(* internal (scheduler) steps enabled in s: an idle event loop means none *)
+Definition stuck_of (s : state) (naddr : nat) : list sx :=
+  match cur s with
+  | Some _ => []
+  | None =>
+      (match spawned s with [] => [] | _ :: _ => [L [A 1%Z]] end) ++
+      flat_map (fun a =>
+                  let c := cl s a in
+                  (match hsusp c with 0 => [] | S _ => [L [A 2%Z; of_nat a]] end) ++
+                  (match st c with TPending => [L [A 3%Z; of_nat a]] | _ => [] end) ++
+                  (match pc c, queue c with PWait _, _ :: _ => [L [A 9%Z; of_nat a]] | _, _ => [] end))
+               (seq 0 naddr)
+  end.
+
 Definition run (i : sx) : sx :=
   match i with
   | L (n :: ls :: _) =>
@@ -55,6 +72,6 @@ Definition run (i : sx) : sx :=
       do labels <- as_list_of dec_label ls;
       let '(s, o, stuck) := exec 0 state0 labels [] in
       let o' := map obs_sx o ++ match stuck with Some k => [L [A (-1); of_nat k]] | None => [] end in
-      L [L o'; L (summary s naddr)]
+      L [L o'; L (summary s naddr); L (if err s then [] else stuck_of s naddr)]
   | _ => bad_input
   end.
